@@ -206,6 +206,8 @@ def replay(prop, mod, path):
 
 
 def main(argv):
+    import warnings
+    warnings.simplefilter("ignore")
     t0 = time.time()
     prop = argv[0]
     tier = os.environ.get("VERIF_TIER", "quick")
